@@ -74,19 +74,25 @@ AckCases == {[ty |-> t, id |-> id] : t \in DOMAIN AckFirst, id \in {1, 255, 256,
 AckWire(c) == <<B(AckFirst[c.ty]), B(2)>> \o Bs(U16(c.id))
 
 (* 3.8 SUBSCRIBE, 3.10 UNSUBSCRIBE: k topic filters; pattern = requested QoS of filter i *)
-RECURSIVE SubTopics(_, _, _, _)
-SubTopics(i, k, tl, pat) ==
-  IF i > k THEN <<>> ELSE LP(tl, 10 + i) \o <<B(IF pat = 3 THEN i % 3 ELSE pat)>> \o SubTopics(i + 1, k, tl, pat)
-SubscribeCases == {[ty |-> "SUBSCRIBE", id |-> id, k |-> k, tl |-> tl, pat |-> pat] :
+\* filter i has length tl, except that the first filter has length tl1 when tl1 > 0 (a long filter followed by short
+\* ones: the remaining length crosses a varint boundary while the last list entries are shorter than the fixed header)
+TlOf(c, i) == IF i = 1 /\ c.tl1 > 0 THEN c.tl1 ELSE c.tl
+LongFirst == (110..130) \cup (16365..16385)
+RECURSIVE SubTopics(_, _)
+SubTopics(i, c) ==
+  IF i > c.k THEN <<>> ELSE LP(TlOf(c, i), 10 + i) \o <<B(IF c.pat = 3 THEN i % 3 ELSE c.pat)>> \o SubTopics(i + 1, c)
+SubscribeCases == {[ty |-> "SUBSCRIBE", id |-> id, k |-> k, tl |-> tl, tl1 |-> 0, pat |-> pat] :
                      id \in {1, 255, 256, 65535}, k \in 1..9, tl \in {1, 2, 127, 128}, pat \in {0, 2, 3}} \cup
-                  {[ty |-> "SUBSCRIBE", id |-> 7, k |-> k, tl |-> 65535, pat |-> 1] : k \in {1, 3}}
-SubscribeWire(c) == Frame(130, Bs(U16(c.id)) \o SubTopics(1, c.k, c.tl, c.pat))
-RECURSIVE UnsubTopics(_, _, _)
-UnsubTopics(i, k, tl) == IF i > k THEN <<>> ELSE LP(tl, 10 + i) \o UnsubTopics(i + 1, k, tl)
-UnsubscribeCases == {[ty |-> "UNSUBSCRIBE", id |-> id, k |-> k, tl |-> tl] :
+                  {[ty |-> "SUBSCRIBE", id |-> 7, k |-> k, tl |-> 65535, tl1 |-> 0, pat |-> 1] : k \in {1, 3}} \cup
+                  {[ty |-> "SUBSCRIBE", id |-> 7, k |-> k, tl |-> tl, tl1 |-> l1, pat |-> 3] : k \in {2, 3}, tl \in {1, 2}, l1 \in LongFirst}
+SubscribeWire(c) == Frame(130, Bs(U16(c.id)) \o SubTopics(1, c))
+RECURSIVE UnsubTopics(_, _)
+UnsubTopics(i, c) == IF i > c.k THEN <<>> ELSE LP(TlOf(c, i), 10 + i) \o UnsubTopics(i + 1, c)
+UnsubscribeCases == {[ty |-> "UNSUBSCRIBE", id |-> id, k |-> k, tl |-> tl, tl1 |-> 0] :
                        id \in {1, 255, 256, 65535}, k \in 1..9, tl \in {1, 2, 3, 127, 128}} \cup
-                    {[ty |-> "UNSUBSCRIBE", id |-> 7, k |-> k, tl |-> 65535] : k \in {1, 3}}
-UnsubscribeWire(c) == Frame(162, Bs(U16(c.id)) \o UnsubTopics(1, c.k, c.tl))
+                    {[ty |-> "UNSUBSCRIBE", id |-> 7, k |-> k, tl |-> 65535, tl1 |-> 0] : k \in {1, 3}} \cup
+                    {[ty |-> "UNSUBSCRIBE", id |-> 7, k |-> k, tl |-> tl, tl1 |-> l1] : k \in {2, 3}, tl \in {1, 2, 3}, l1 \in LongFirst}
+UnsubscribeWire(c) == Frame(162, Bs(U16(c.id)) \o UnsubTopics(1, c))
 
 (* 3.9 SUBACK: one return code per filter *)
 Code(pat, i) == IF pat = 3 THEN <<0, 1, 2, 128>>[(i % 4) + 1] ELSE pat
@@ -109,6 +115,52 @@ Wire(c) == CASE c.ty = "CONNECT" -> ConnectWire(c)
              [] c.ty = "UNSUBSCRIBE" -> UnsubscribeWire(c)
              [] c.ty = "SUBACK" -> SubackWire(c)
              [] OTHER -> EmptyWire(c)
+
+-----------------------------------------------------------------------------
+(* Non-minimal remaining length (2.2.3 does not forbid it, and the implementation's readers accept it): the same packet
+   with the length field padded to more bytes.  A decoder may refuse such a packet, but if it accepts it, the fields
+   and the byte count must be those of the packet - and it may never crash on it.                                   *)
+RECURSIVE PadVarint(_, _)
+PadVarint(v, pad) == IF pad = 0 THEN v
+                     ELSE PadVarint([i \in 1..Len(v) + 1 |-> IF i < Len(v) THEN v[i] ELSE IF i = Len(v) THEN v[i] + 128 ELSE 0], pad - 1)
+VarLenOf(c) == LET n == Size(Wire(c)) IN IF n - 2 < 128 THEN 1 ELSE IF n - 3 < 16384 THEN 2 ELSE IF n - 4 < 2097152 THEN 3 ELSE 4
+PadWire(c, pad) == LET w == Wire(c)  vl == VarLenOf(c)  n == Size(w) - 1 - vl      \* w = first byte, vl length bytes, body
+                   IN <<w[1]>> \o Bs(PadVarint(Varint(n), pad)) \o SubSeq(w, 2 + vl, Len(w))
+PadBase == {c \in PublishCases : c.pl \in {0, 1} /\ c.tl \in {1, 2, 127, 128}} \cup ConnackCases \cup AckCases \cup EmptyCases
+           \cup {c \in SubscribeCases \cup UnsubscribeCases : c.k <= 2 /\ c.tl <= 2 /\ c.tl1 = 0 /\ c.id = 1}
+           \cup {c \in SubackCases : c.k <= 2 /\ c.id = 1}
+           \cup {c \in ConnectCases : c.ver = 4 /\ c.ka = 0 /\ c.cidl = 1 /\ c.wtl <= 1 /\ c.wml = 0 /\ c.ul <= 1 /\ c.pwl = 0}
+Pads == {[case |-> c, pad |-> pad] : c \in PadBase, pad \in 1..3} 
+
+(* Messages are mutable: a message - in particular one that came out of Decode, as in the broker, which lowers the QoS
+   of a received PUBLISH and replaces keep-alive / client identifier of a received CONNECT - can be changed through
+   its setters and encoded again.  What Encode writes then is the wire form of the NEW field values.
+   from: the case whose wire form is decoded; to: the case whose fields are then set (only the setters of fields that
+   differ are called); auto: the packet identifier is not set by the caller but left to the library (QoS 0 -> 1/2). *)
+SmallPub == {[ty |-> "PUBLISH", dup |-> 0, q |-> q, r |-> r, tl |-> tl, id |-> id, pl |-> pl] :
+               q \in 0..2, r \in 0..1, tl \in {1, 2}, id \in {1, 258}, pl \in {0, 1, 3}}
+SmallConn == {[ty |-> "CONNECT", ver |-> 4, clean |-> cl, will |-> w.will, wq |-> w.wq, wr |-> w.wr, wtl |-> w.wtl, wml |-> w.wml,
+               ul |-> up[1], pwl |-> up[2], ka |-> ka, cidl |-> cidl] :
+               cl \in 0..1, ka \in {0, 30}, cidl \in {1, 15},
+               w \in {[will |-> 0, wq |-> 0, wr |-> 0, wtl |-> 0, wml |-> 0], [will |-> 1, wq |-> 1, wr |-> 1, wtl |-> 2, wml |-> 0],
+                      [will |-> 1, wq |-> 2, wr |-> 0, wtl |-> 1, wml |-> 3]},
+               up \in {<<0, 0>>, <<1, 0>>, <<2, 1>>}}
+SmallSub == {c \in SubscribeCases : c.id = 1 /\ c.k <= 3 /\ c.tl = 1 /\ c.tl1 = 0 /\ c.pat = 3}
+SmallUnsub == {c \in UnsubscribeCases : c.id = 1 /\ c.k <= 3 /\ c.tl = 1 /\ c.tl1 = 0}
+OneGroup(a, b) == \* CONNECT pairs differ in exactly one group of fields
+  Cardinality({g \in {"clean", "ka", "cid", "will", "cred"} :
+     CASE g = "clean" -> a.clean # b.clean [] g = "ka" -> a.ka # b.ka [] g = "cid" -> a.cidl # b.cidl
+       [] g = "will" -> <<a.will, a.wq, a.wr, a.wtl, a.wml>> # <<b.will, b.wq, b.wr, b.wtl, b.wml>>
+       [] OTHER -> <<a.ul, a.pwl>> # <<b.ul, b.pwl>>}) = 1
+Mods == {[from |-> a, to |-> b, auto |-> au] : a \in SmallPub, b \in SmallPub, au \in BOOLEAN} \cup
+        {[from |-> a, to |-> b, auto |-> FALSE] : a \in SmallConn, b \in SmallConn} \cup
+        {[from |-> a, to |-> b, auto |-> FALSE] : a \in SmallSub, b \in SmallSub} \cup
+        {[from |-> a, to |-> b, auto |-> FALSE] : a \in SmallUnsub, b \in SmallUnsub}
+ModOK(m) == /\ m.from # m.to
+            /\ m.from.ty = "PUBLISH" => /\ (m.auto => m.from.q = 0 /\ m.to.q > 0 /\ m.to.id = 1)
+                                        /\ (m.from.q = 0 => m.from.id = 1) /\ (m.to.q = 0 => m.to.id = 1)   \* no identifier at QoS 0
+            /\ m.from.ty = "CONNECT" => OneGroup(m.from, m.to)
+            /\ m.from.ty \in {"SUBSCRIBE", "UNSUBSCRIBE"} => m.from.k # m.to.k     \* topics added at the end / removed from the end
 
 -----------------------------------------------------------------------------
 (* Total parser on explicit byte strings.  Strict: whatever is doubtful is rejected (an input
@@ -165,7 +217,10 @@ CONSTANTS Mode, ParseAlpha, ParseMaxLen
 Strs == UNION {[1..k -> ParseAlpha] : k \in 0..ParseMaxLen}
 
 VARIABLE st
-Init == IF Mode = "cases" THEN st \in Cases ELSE st \in Strs
+Init == CASE Mode = "cases" -> st \in Cases
+          [] Mode = "pads" -> st \in {p \in Pads : VarLenOf(p.case) + p.pad <= 4}
+          [] Mode = "mods" -> st \in {m \in Mods : ModOK(m)}
+          [] OTHER -> st \in Strs
 Next == UNCHANGED st
 Spec == Init /\ [][Next]_st
 
@@ -181,6 +236,17 @@ SelfConsistent ==
                             /\ (st.ty \in DOMAIN AckFirst => p.id = st.id)
                             /\ (st.ty = "CONNACK" => p.sp = st.sp /\ p.rc = st.code)
                             /\ (st.ty = "SUBACK" => p.id = st.id /\ p.k = st.k))
-Emit == IF Mode = "cases" THEN PrintT(ToJson([case |-> st, wire |-> Wire(st), len |-> Size(Wire(st))]))
-        ELSE PrintT(ToJson([x |-> st, p |-> Parse(st)]))
+\* padding keeps the packet: the reference parser reads the padded form of an explicit case as the same packet
+PadConsistent ==
+  Mode = "pads" =>
+    LET w == PadWire(st.case, st.pad) IN
+      /\ Size(w) = Size(Wire(st.case)) + st.pad
+      /\ (Explicit(w) /\ st.case.ty # "CONNECT") => (LET p == Parse(Bytes(w))  q == Parse(Bytes(Wire(st.case))) IN
+                                                        p.ok /\ p.len = Len(w) /\ [p EXCEPT !.len = 0] = [q EXCEPT !.len = 0])
+Emit == CASE Mode = "cases" -> PrintT(ToJson([case |-> st, wire |-> Wire(st), len |-> Size(Wire(st))]))
+          [] Mode = "pads" -> PrintT(ToJson([case |-> st.case, pad |-> st.pad, wire |-> PadWire(st.case, st.pad),
+                                             len |-> Size(Wire(st.case)) + st.pad]))
+          [] Mode = "mods" -> PrintT(ToJson([case |-> st.to, from |-> st.from, auto |-> st.auto, wfrom |-> Wire(st.from),
+                                             wire |-> Wire(st.to), len |-> Size(Wire(st.to))]))
+          [] OTHER -> PrintT(ToJson([x |-> st, p |-> Parse(st)]))
 =============================================================================
